@@ -695,6 +695,15 @@ func (c *spendCtx) buildOne(t *Tape, class string) {
 		// 1-4 distinct recipients sharing the payment; a random non-empty
 		// subset of them bears the fee (in equal shares) when subtract is set
 		pay := sum * int64(20+t.Int(70)) / 100
+		overdrawn := false
+		if t.Bool(12) {
+			// more than the named inputs hold: refused after the inputs were
+			// accepted - and a refused request must not reserve anything (the
+			// creations that follow tell: the reservation model knows only
+			// drafts that were handed out)
+			pay = sum + sum/10
+			overdrawn = true
+		}
 		nRec := 1 + t.Weighted([]int{5, 2, 3, 2})
 		type rcpt struct {
 			hh   [32]byte
@@ -714,6 +723,14 @@ func (c *spendCtx) buildOne(t *Tape, class string) {
 			a, _ := massutil.NewAmountFromInt(amt)
 			amounts[dest] = a
 			rc = append(rc, rcpt{hh: hh, dest: dest, amt: amt})
+		}
+		if overdrawn {
+			// (recipients drawn twice count once: what matters is what is really asked for)
+			var total int64
+			for _, r := range rc {
+				total += r.amt
+			}
+			overdrawn = total > sum
 		}
 		var sub map[string]struct{}
 		subtract := t.Bool(40)
@@ -747,7 +764,14 @@ func (c *spendCtx) buildOne(t *Tape, class string) {
 		}
 		if err != nil {
 			w.Stat("check.build_refused")
+			if overdrawn {
+				w.Stat("probe.explicit_request_refused_after_its_inputs_were_accepted")
+			}
 			return // manual path: refusal reasons (dust, not enough inputs) are not asserted here
+		}
+		if overdrawn {
+			w.Violate(class+".built-without-funds", "%s succeeded although the recipients get more than the named inputs hold", what)
+			return
 		}
 		if nSub > 1 {
 			w.Stat("probe.fee_shared_by_several_recipients")
